@@ -103,6 +103,13 @@ def one(ctx, i):
                 ctx.count('load_function_replaced_before_the_study')
             else:
                 b = B.build(sp)
+                if i % 4 == 2:
+                    # ANOTHER design (same part names, other teeth numbers and inertias) is built, with its solver, after this
+                    # one and stays alive while this one runs
+                    if j == 0:
+                        decoy_spec = GEN.gen_scenario(ctx.rng('decoy', i), prof, force_selflock=False)
+                        ctx.count('studies_with_another_design_alive')
+                    decoy = B.build(decoy_spec, hooks=False)
             runs = B.run_schedule(b)
         except Exception as ex:
             ctx.violation('harness:valid-scenario-rejected', {'exception': type(ex).__name__ + ': ' + str(ex)[:200]}, case)
